@@ -86,8 +86,9 @@ type CmdIn struct {
 }
 
 type StepIn struct {
-	Op   string `json:"op"`             // start | reconcile | advance | launch | init | vanish | vanishStale | sync | restart | cleanup
+	Op   string `json:"op"`             // start | reconcile | advance | launch | init | vanish | vanishStale | candGone | sync | restart | cleanup
 	Cmd  int    `json:"cmd,omitempty"`  // start, reconcile, launch, init, vanish*
+	Cand int    `json:"cand,omitempty"` // candGone: the candidate whose Node and NodeClaim go away on their own
 	Repl int    `json:"repl,omitempty"` // launch, init, vanish*
 	On   int    `json:"on,omitempty"`   // reconcile: position in the command's candidate list whose NodeClaim is handed to Reconcile
 	Via  bool   `json:"via,omitempty"`  // start: build the candidates through disruption.NewCandidate (the controller's path)
@@ -122,6 +123,7 @@ type CandSnap struct {
 	Deleting bool `json:"deleting"`
 	Mark     bool `json:"mark"`  // StateNode.MarkedForDeletion() as the provisioner / candidate filter see it
 	Owner    int  `json:"owner"` // index of the command holding the provider id in Queue.ProviderIDToCommand, -1 if none
+	Gone     bool `json:"gone"`  // neither the Node nor the NodeClaim exists in the API and the cluster state has no StateNode for the provider id
 }
 
 type ReplSnap struct {
@@ -557,8 +559,10 @@ func (e *env) snapshot(o *candObjs) ([]CandSnap, []CmdSnap) {
 	}
 	e.queue.RUnlock()
 	marks := map[string]bool{}
+	known := map[string]bool{}
 	for n := range e.cluster.Nodes() {
 		marks[n.ProviderID()] = n.MarkedForDeletion()
+		known[n.ProviderID()] = true
 	}
 	for i := range cands {
 		s := CandSnap{Owner: -1}
@@ -572,9 +576,11 @@ func (e *env) snapshot(o *candObjs) ([]CandSnap, []CmdSnap) {
 		if nc := o.claims[i]; nc != nil {
 			s.Cond = nc.StatusConditions().Get(v1.ConditionTypeDisruptionReason) != nil
 			s.Deleting = !nc.DeletionTimestamp.IsZero()
-		} else {
+		} else if o.nodes[i] != nil {
 			s.Deleting = true
 		}
+		// candGone removes both objects and tells the cluster state in one step, so the three go together
+		s.Gone = o.nodes[i] == nil && o.claims[i] == nil && !known[candPID(i)]
 		s.Mark = marks[candPID(i)]
 		if c, ok := owners[candPID(i)]; ok {
 			s.Owner = -2 // a command the harness does not know
@@ -646,7 +652,8 @@ func (e *env) start(k int, via bool) string {
 		for _, i := range cs.in.Cands {
 			sn := sns[candPID(i)]
 			if sn == nil {
-				return "harness:no state node"
+				// a node the cluster state does not know cannot be a candidate (GetCandidates ranges over the state nodes)
+				return "notcand"
 			}
 			cands = append(cands, &disruption.Candidate{StateNode: sn, NodePool: e.pool})
 		}
@@ -796,6 +803,48 @@ func (e *env) envStep(op string, k, i int) string {
 	return "harness:bad env op"
 }
 
+// candGone: candidate i goes away on its own while actions may be in flight (the node is removed by somebody else or
+// its termination finishes): the finalizers are dropped, Node and NodeClaim are deleted from the API, and the informers
+// make the cluster state forget both (DeleteNodeClaim + DeleteNode). The queue is not told.
+func (e *env) candGone(i int) string {
+	if i < 0 || i >= e.in.NCands {
+		return "noop"
+	}
+	gone := true
+	nc := &v1.NodeClaim{}
+	if err := e.raw.Get(e.ctx, types.NamespacedName{Name: candClaim(i)}, nc); err == nil {
+		gone = false
+		if len(nc.Finalizers) > 0 {
+			nc.Finalizers = nil
+			if err := e.raw.Update(e.ctx, nc); err != nil {
+				return "harness:" + err.Error()
+			}
+		}
+		if err := e.raw.Delete(e.ctx, nc); err != nil && !apierrors.IsNotFound(err) {
+			return "harness:" + err.Error()
+		}
+	}
+	node := &corev1.Node{}
+	if err := e.raw.Get(e.ctx, types.NamespacedName{Name: candNode(i)}, node); err == nil {
+		gone = false
+		if len(node.Finalizers) > 0 {
+			node.Finalizers = nil
+			if err := e.raw.Update(e.ctx, node); err != nil {
+				return "harness:" + err.Error()
+			}
+		}
+		if err := e.raw.Delete(e.ctx, node); err != nil && !apierrors.IsNotFound(err) {
+			return "harness:" + err.Error()
+		}
+	}
+	if gone {
+		return "noop"
+	}
+	e.cluster.DeleteNodeClaim(candClaim(i))
+	e.cluster.DeleteNode(candNode(i))
+	return "ok"
+}
+
 func (e *env) step(s StepIn) StepOut {
 	e.mu.Lock()
 	e.fired = 0
@@ -822,6 +871,8 @@ func (e *env) step(s StepIn) StepOut {
 		res = "ok"
 	case "launch", "init", "vanish", "vanishStale":
 		res = e.envStep(s.Op, s.Cmd, s.Repl)
+	case "candGone":
+		res = e.candGone(s.Cand)
 	case "sync":
 		e.syncAll()
 		res = "ok"
